@@ -485,18 +485,30 @@ def symptom_of(ctx, c):
     return (s, {"args": t, "expected": e, "actual": a, "mismatching_tuples": "%d of %d" % (nbad, len(c.tuples))})
 
 
-def subject_mechanism(m, symptom, src):
+def subject_mechanism(m, symptom, src, failing_subjects=()):
     """mechanism name for a single-subject method (P0/P1): derived from the subject feature and the symptom, never from values"""
     kind, base = m.subject.split(":", 1)
     src = src or ""
+    shape = ""
+    if "@" in base:
+        base, shape = base.split("@")
     if kind == "op" and base.startswith("ushr") and symptom == "wrong-value" and ">>>" not in src:
         return base + "-printed-as-shr"
     if kind == "const" and symptom == "javac-integer-number-too-large":
         return base + "-literal-without-L"
+    if kind == "dead" and symptom == "exception-lost":
+        return "div-by-zero-exception-lost-unused-result"     # one root cause (dead-store removal of a throwing instruction) for all div/rem forms
     if kind == "dead":
         return "unused-result-%s-%s" % (base, symptom)
-    if kind == "cmp":
-        return "%s-%s" % (base, symptom)
+    if kind == "op" and shape and ("op:" + base) not in failing_subjects:
+        # only the constant-operand shape fails, the register-register shape of the same instruction is fine
+        if shape == "cp" and "-long" in base and base.split("-")[0] in ("shl", "shr", "ushr") and symptom == "wrong-value":
+            return base + "-long-constant-lhs-printed-as-int-literal"
+        if shape == "cc" and "-long" in base and symptom == "wrong-value":
+            return base + "-long-constant-operands-printed-as-int-literals"
+        return "%s-const-%s-%s" % (base, {"cp": "lhs", "pc": "rhs", "cc": "both"}[shape], symptom)
+    if kind in ("nest", "seq", "switch", "decl", "type"):
+        return "%s-%s-%s" % (kind, re.sub(r"[^A-Za-z0-9]+", "-", base).strip("-"), symptom)
     return "%s-%s" % (base, symptom)
 
 
@@ -548,15 +560,17 @@ def what_of(symptom):
 def phase_single(ctx, arg):
     """P0 + P1: single-subject methods. Returns through ctx.extra['bad_features'] = {feature: {symptom: mechanism}}"""
     rng = ctx.rng("c21-single", arg.get("salt", 0))
-    methods = G.p0_methods(rng) + G.p1_methods(rng)
+    methods = G.p0_methods(rng) + G.p1_methods(rng) + G.pattern_methods(rng)
     tc = {}
     cases = to_cases(methods, "S", rng, tc)
     pipeline(ctx, cases)
+    crosscheck_interp(ctx, cases, "S")
     bad = judge(ctx, cases, "single")
     table = {}
+    failing_subjects = {c.meta.subject for c, _, _ in bad}
     for c, symptom, detail in bad:
         m = c.meta
-        mech = subject_mechanism(m, symptom, c.src)
+        mech = subject_mechanism(m, symptom, c.src, failing_subjects)
         report(ctx, c, mech, what_of(symptom), detail)
         table.setdefault(m.subject, {})[symptom] = mech
     covered = sorted({m.subject for m in methods})
@@ -566,3 +580,174 @@ def phase_single(ctx, arg):
         if c.src and c.meta.pool == "P0" and len(ctx.samples) < 2:
             ctx.sample({"pool": "P0", "subject": c.meta.subject, "bytecode": I.listing(c.units), "decompiled": c.src, "tuples": len(c.tuples)})
     return table
+
+
+def crosscheck_interp(ctx, cases, tag):
+    """harness self-check: the generator's AST printed as Java (NOT the decompiler) must agree with the interpreter on every tuple"""
+    clones = []
+    frames = {}
+    for c in cases:
+        if c.expected is None:
+            continue
+        cls = "q/X%s" % c.cls.split("/")[1]
+        k = Case(cls, c.name, c.ret, c.params, c.registers, c.ins, c.units, c.tuples, meta=c.meta)
+        k.src = "\n" + G.to_java(c.meta)
+        k.expected = c.expected
+        frames[cls] = ("package q;\npublic class %s {\n" % cls.split("/")[1], "}\n")
+        clones.append(k)
+    if not clones:
+        return
+    jr = J.JavaRun()
+    try:
+        ok = javac_rounds(ctx, jr, clones, frames, max_rounds=1)
+        ctx.counters["javac_invocations"] = ctx.counters.get("javac_invocations", 1) - 1
+        ctx.count("crosscheck_javac_invocations")
+        if len(ok) != len(clones):
+            d = [k.diags[0][0] for k in clones if k.diags][:2]
+            ctx.inconclusive("harness: the generator's own Java rendering is rejected by javac: %s" % d)
+            return
+        before = ctx.counters.get("jvm_methods_run", 0), ctx.counters.get("jvm_runs", 0)
+        run_jvm(ctx, jr, clones, ok)
+        ctx.counters["jvm_methods_run"], ctx.counters["jvm_runs"] = before
+    finally:
+        jr.close()
+    for k in clones:
+        if not isinstance(k.jvm, list):
+            ctx.inconclusive("harness: reference Java of %s did not run: %s" % (k.key, k.jvm))
+            continue
+        ctx.count("crosscheck_methods")
+        mm = first_mismatch(k)
+        if mm is not None:
+            ctx.inconclusive("harness: interpreter and JVM disagree on the generator's own AST: %s args=%s interp=%s jvm=%s\n%s" % (
+                I.listing(k.units)[:30], mm[0], mm[1], mm[2], k.src))
+
+
+def phase_multi(ctx, arg):
+    """one shard of a multi-feature pool with explain-away re-runs. arg: pool, n, salt, bad (table from the single phase), crosscheck"""
+    pool, n, table = arg["pool"], arg["n"], arg["bad"]
+    rng = ctx.rng("c21", pool, arg.get("salt", 0))
+    methods = G.random_methods(rng, pool, n)
+    tc = {}
+    cases = to_cases(methods, pool, rng, tc)
+    pipeline(ctx, cases)
+    if arg.get("crosscheck"):
+        crosscheck_interp(ctx, cases, pool)
+    bad = judge(ctx, cases, pool)
+    for c in cases:
+        if c.src and isinstance(c.jvm, list) and len(ctx.samples) < 1 and len(c.units) < 60:
+            ctx.sample({"pool": pool, "features": sorted(c.meta.features), "bytecode": I.listing(c.units), "decompiled": c.src, "tuples": len(c.tuples)})
+    # explain-away: neutralise the known-bad features whose single-feature symptom matches, re-run, repeat
+    pending = [{"orig": c, "cur": c, "symptom": s, "detail": d, "attr": []} for c, s, d in bad]
+    for rnd in range(4):
+        if not pending:
+            break
+        nxt = []
+        for p in pending:
+            m = p["cur"].meta
+            cands = {f for f in m.features if f in table and p["symptom"] in table[f]}
+            m2 = done = None
+            if cands:
+                try:
+                    m2, done = G.neutralise(m, cands)
+                except G.TooBig:
+                    m2 = None
+            if not cands or not done or m2 is None:
+                finish_unattributed(ctx, p, pool)
+                continue
+            for f in sorted(done):
+                p["attr"].append((f, p["symptom"], table[f][p["symptom"]]))
+            p["m2"] = m2
+            nxt.append(p)
+        if not nxt:
+            pending = []
+            break
+        ms = [p["m2"] for p in nxt]
+        ncases = to_cases(ms, "%sN%d_" % (pool, rnd), rng, tc)
+        pipeline(ctx, ncases)
+        ctx.count("explain_away_reruns", len(ncases))
+        pending = []
+        for p, nc in zip(nxt, ncases):
+            p["cur"] = nc
+            if nc.expected is None:
+                ctx.count("explain_away_discarded_step_cap")
+                continue
+            s = symptom_of(ctx, nc)
+            if s is None:
+                if nc.jvm is None and not nc.diags and nc.decomp_error is None:
+                    continue  # pipeline trouble already recorded as inconclusive
+                seen = set()
+                for f, sym, mech in p["attr"]:
+                    if mech in seen:
+                        continue
+                    seen.add(mech)
+                    ctx.count("attributed_by_explain_away")
+                    report(ctx, p["orig"], mech, what_of(sym), p["detail"] if sym == p["symptom"] else {},
+                           {"attribution": "explain-away: with %s replaced by benign equivalents the method passes" % sorted({a[0] for a in p["attr"]}),
+                            "neutralised_decompiled": nc.src})
+            else:
+                p["symptom"], p["detail"] = s
+                pending.append(p)
+    for p in pending:
+        finish_unattributed(ctx, p, pool)
+
+
+def finish_unattributed(ctx, p, pool):
+    c = p["cur"]
+    ctx.count("unattributed")
+    extra = {}
+    if p["attr"]:
+        extra = {"note": "residual failure after neutralising %s; the original method is given below" % sorted({a[0] for a in p["attr"]}),
+                 "original_decompiled": p["orig"].src, "original_bytecode": I.listing(p["orig"].units)}
+    subj = c.meta.subject or ""
+    report(ctx, c, "unattributed-%s-%s" % (pool, p["symptom"]), what_of(p["symptom"]) + " (no single-feature mechanism explains it; constructs: %s)" % subj, p["detail"], extra)
+
+
+QUICK_POOLS = {"P0m": 40, "P2": 40, "P3": 40, "P4": 40, "P5": 40}
+THOROUGH_POOLS = {"P0m": 3000, "P2": 3000, "P3": 4000, "P4": 4000, "P5": 6000}
+SHARD_METHODS = 250
+
+
+def run(ctx):
+    ctx.rule = ("generated well-typed static int/long methods -> DEX -> DAD class source -> javac -> one JVM per batch, every method on boundary "
+                "and seeded random argument tuples (all values for 1 parameter, all pairs for 2, >=120 tuples for 3), compared per call with the "
+                "independent Dalvik interpreter (value or exception class). Pools: P0 single operator/constant/move form x operand shape, P1 one "
+                "if/else per comparison, P0m multi-operator straight line, P2 &&/||, P3 loops, P4 switches, P5 nested mixes. "
+                "distinct non-trivial = distinct (feature set, AST shape) of methods that were decompiled and ran >= 8 tuples")
+    ctx.assumptions = ["vf.model.interp implements the Dalvik int/long semantics (cross-checked against the JVM on the generator's own Java rendering"
+                       " of every method: always for the single-subject pools, for all pools in the thorough tier)",
+                       "javac 17 / JVM 17 give the meaning of the printed Java",
+                       "explain-away attribution can hide a defect that needs a known-bad feature to show (stated limit)"]
+    if not J.available():
+        ctx.inconclusive("javac/java not found")
+        return
+    salts = [0] if ctx.quick else [0, 1, 2, 3]
+    res = ctx.run_shards(MOD, "phase_single_shard", [{"salt": s} for s in salts], timeout=900)
+    table = {}
+    for r in res:
+        if r is None:
+            continue
+        for subj, d in r.get("extra", {}).get("bad_features", {}).items():
+            table.setdefault(subj, {}).update(d)
+    ctx.extra["bad_features"] = table
+    pools = QUICK_POOLS if ctx.quick else THOROUGH_POOLS
+    args = []
+    for pool, n in pools.items():
+        k = 0
+        while n > 0:
+            take = min(n, SHARD_METHODS)
+            args.append({"pool": pool, "n": take, "salt": k, "bad": table, "crosscheck": not ctx.quick})
+            n -= take
+            k += 1
+    ctx.run_shards(MOD, "phase_multi", args, timeout=1800)
+    ctx.require_counter("methods_single", 400)
+    for pool in pools:
+        ctx.require_counter("methods_" + pool, 10)
+    ctx.require_counter("methods_decompiled", 100)
+    ctx.require_counter("jvm_calls_compared", 10000)
+    ctx.require_counter("crosscheck_methods", 400)
+    ctx.require_counter("methods_with_expected_exception", 5)
+    ctx.min_distinct = 200
+
+
+def phase_single_shard(ctx, arg):
+    phase_single(ctx, arg)
